@@ -303,6 +303,14 @@ def run_case(idx, rng, P, rep):
         """A rebind attempt of constant parameter p on instance i."""
         o = insts[i]
         v = new_value(p)
+        offered_src = None
+        if p == 'cr' and not open_blocks and rng.random() < 0.4:
+            # what is offered is a reference (to a parameter of another object): refused all the same, and the source
+            # has no hold on the constant afterwards
+            offered_src = Src(v=v)
+            sources.append(offered_src)
+            v = offered_src.param.v
+            rep.count('references_offered_to_constants')
         try:
             if how == 'set':
                 setattr(o, p, v)
@@ -344,6 +352,12 @@ def run_case(idx, rng, P, rep):
             if getattr(o, p) is not held[i][p] and outcome != 'ok':
                 viol('held-object-changed', f'after refused {how}: inst{i}.{p} changed')
                 held[i][p] = getattr(o, p)
+            if offered_src is not None and outcome != 'ok':
+                offered_src.v = new_value(p)
+                if getattr(o, p) is not held[i][p]:
+                    viol('held-object-changed/refused-reference-still-linked', f'after the refused {how} of a reference, an update of its source '
+                         f'changed inst{i}.{p}')
+                    held[i][p] = getattr(o, p)
 
     def readonly_attempt(target, label):
         before = target.r
@@ -427,7 +441,25 @@ def run_case(idx, rng, P, rep):
                 rep.count('class_sets')
             elif c < 0.54:
                 kinds.append('readonly')
-                if rng.random() < 0.5:
+                if not open_blocks and rng.random() < 0.25:
+                    # the documented way to give a read-only parameter a new class value: switch the flag of the class's
+                    # Parameter off, assign at class level, switch it on again. The parameter stays constant meanwhile:
+                    # existing instances keep the object they hold.
+                    K0 = classes[0]
+                    before_r = [o_.r for o_ in insts]
+                    K0.param['r'].readonly = False
+                    try:
+                        K0.r = 3 + len(trace)
+                    finally:
+                        K0.param['r'].readonly = True
+                    trace.append(('readonly-class-value-replaced', K0.__name__))
+                    rep.count('readonly_class_value_replacements')
+                    for j_, (o_, b_) in enumerate(zip(insts, before_r)):
+                        if o_.r is not b_ and o_.r != b_:
+                            viol('held-object-changed/readonly', f'replacing the class value of the read-only parameter changed inst{j_}.r '
+                                 f'from {b_!r} to {o_.r!r}')
+                            break
+                elif rng.random() < 0.5:
                     readonly_attempt(insts[i], f'inst{i}')
                 else:
                     K = rng.choice(classes)
